@@ -139,6 +139,8 @@ def generate(rng, tier):
         case["call_values"] = {"vmin": rng.choice([0, 0.0])}
     if rng.random() < 0.15:
         case["call_norm_object"] = True
+    if rng.random() < 0.2:
+        case["alias"] = rng.sample([0, 1, 2], 2)
     if rng.random() < 0.02:
         case["big"] = {"n": rng.choice([120000, 300000]), "res": rng.choice([4, 16]), "op": rng.choice(["sum", "mean"]), "seed": rng.getrandbits(30)}
     return case
@@ -222,7 +224,7 @@ class Shared:
         self.dg = mesh_datagroup(MESH, cells)
         n = len(cells)
         self.layers = []
-        keys = ["density", "temperature", "mass"]
+        keys = layer_keys(case)
         for k in range(3):
             kw = {}
             for o in OPTS:
@@ -267,6 +269,16 @@ class Shared:
                 "dir_vec": self.dir_vec, "norm_obj": self.norm_obj, "dir_basis": self.dir_basis_parts,
                 "bins_list": self.bins_list, "weights": self.weights, "h1_layers": self.h1_layers, "color": self.color, "size": self.size,
                 "plot_dict": self.plot_dict, "signed": self.signed, "signed_layer": self.signed_layer}
+
+
+def layer_keys(case):
+    """the quantity each of the three shared Layers shows; with "alias" two of them wrap the very same Array object
+    (an image and contours of one quantity, with different layer-level options)"""
+    keys = ["density", "temperature", "mass"]
+    if case.get("alias"):
+        a, b = case["alias"]
+        keys[b] = keys[a]
+    return keys
 
 
 def lvalue(case, o):
@@ -325,7 +337,7 @@ def run_call(case, call, S, sims, reference_layer=None):
         sims.append(s)
         return s
 
-    keys = ["density", "temperature", "mass"]
+    keys = layer_keys(case)
     try:
         if fn == "map":
             if reference_layer is None:
@@ -680,6 +692,8 @@ def reductions(case, viol):
         yield c
         yield dict(case, calls=case["calls"][:1])
     yield from list_reductions(case, "calls")
+    if case.get("alias"):
+        yield {k: v for k, v in case.items() if k != "alias"}
     for k in range(3):
         for o in OPTS:
             if case["layer_opts"][k][o]:
